@@ -47,6 +47,14 @@ func (e *Exec) call(fr *Frame, st *State, ins ssa.Instruction, cc *ssa.CallCommo
 	if callee.Pkg == nil && callee.Origin() != nil {
 		name = callee.Origin().String()
 	}
+	switch name {
+	case "sort.Slice", "sort.SliceStable", "slices.SortFunc", "slices.SortStableFunc":
+		if e.pure == 0 {
+			if e.sortModel(fr, st, ins, name, cc, args) {
+				return Val{}
+			}
+		}
+	}
 	// spec intrinsics
 	if v, ok := e.intrinsic(fr, st, ins, callee, name, cc, args); ok {
 		return v
@@ -355,6 +363,11 @@ func (e *Exec) appendBuiltin(fr *Frame, st *State, ins ssa.Instruction, cc *ssa.
 	et := st0.Elem()
 	s := args[0].T
 	if isStructT(et) || isArrayT(et) {
+		if isStructT(et) && !isString(cc.Args[1].Type()) {
+			if n1, ok := litInt(e.tm.SliceLen(args[1].T)); ok && n1.IsInt64() && n1.Int64() == 1 {
+				return e.appendStruct(fr, st, ins, cc, args, et)
+			}
+		}
 		if isStructT(et) {
 			// elements of struct slices live in the per-field arrays of the element type: an append writes only those
 			e.note("append to slice of structs abstracted (element type's field arrays havocked, result length exact)")
@@ -1000,4 +1013,174 @@ func (e *Exec) variadicConsts(fr *Frame, v ssa.Value) []*Term {
 		out = append(out, byIdx[i])
 	}
 	return out
+}
+
+
+// sortModel: sort.Slice / slices.SortFunc with a comparison closure. The elements are havocked, then assumed ordered
+// as the closure says (evaluated symbolically on the new contents) and each drawn from the old contents.
+func (e *Exec) sortModel(fr *Frame, st *State, ins ssa.Instruction, name string, cc *ssa.CallCommon, args []Val) bool {
+	c := e.c
+	if len(args) != 2 || args[1].Clo == nil {
+		return false
+	}
+	clo := args[1].Clo
+	var sv Val
+	var st0 types.Type
+	if strings.HasPrefix(name, "sort.") {
+		mi, ok := cc.Args[0].(*ssa.MakeInterface)
+		if !ok {
+			return false
+		}
+		sv, st0 = e.operand(fr, mi.X), mi.X.Type()
+	} else {
+		sv, st0 = args[0], cc.Args[0].Type()
+	}
+	slt, ok := st0.Underlying().(*types.Slice)
+	if !ok || sv.T == nil {
+		return false
+	}
+	et := slt.Elem()
+	base, off, ln := e.tm.SliceBase(sv.T), e.tm.SliceOff(sv.T), e.tm.SliceLen(sv.T)
+	pre := st.clone()
+	// havoc the elements
+	if isStructT(et) {
+		ms := newModSet()
+		e.eng.addTypeWrites(ms, e, et)
+		names := make([]string, 0, len(ms.heap))
+		for n := range ms.heap {
+			names = append(names, n)
+		}
+		sort.Strings(names)
+		for _, n := range names {
+			if e.frameOn && !e.frameOff {
+				e.wholeArrayFrame(st, n)
+			}
+			e.heapSet(st, n, c.Fresh(n+"@sort", e.fixSort(ms.heap[n])))
+		}
+	} else {
+		n, srt := e.memArr(et)
+		e.frameCheck(st, n, base)
+		mem := e.heapGet(st, n, srt)
+		_, es := arrayParts(mem.sort)
+		e.heapSet(st, n, c.Store(mem, base, c.Fresh(n+"@sort", es)))
+	}
+	elemAt := func(s *State, i *Term) Val {
+		idx := c.Add(off, i)
+		if isStructT(et) {
+			return e.load(s, Val{T: e.elemRef(base, idx)}, et)
+		}
+		return e.load(s, Val{P: &Ptr{kind: pElem, obj: base, idx: idx, elemT: et}}, et)
+	}
+	pp := e.eng.fset.Position(ins.Pos())
+	tag := fmt.Sprintf("sort.%d.%d", pp.Line, pp.Column)
+	i, j := c.BoundVarNamed(tag+".i", "Int"), c.BoundVarNamed(tag+".j", "Int")
+	guard := c.And(c.Le(c.Int(0), i), c.Lt(i, j), c.Lt(j, ln))
+	var ordered *Term
+	e.pure++
+	if strings.HasPrefix(name, "sort.") {
+		ordered = c.Not(e.callClosure(clo, []Val{{T: j}, {T: i}}, st, fr).T)
+	} else {
+		ordered = c.Le(e.callClosure(clo, []Val{elemAt(st, i), elemAt(st, j)}, st, fr).T, c.Int(0))
+	}
+	e.pure--
+	e.assume(st, c.Forall([]*Term{i, j}, c.Implies(guard, ordered)))
+	// every element after the call is one of the elements before it
+	e.pure++
+	k := c.BoundVarNamed(tag+".k", "Int")
+	same := c.Eq(elemAt(st, i).T, elemAt(pre, k).T)
+	e.pure--
+	e.assume(st, c.Forall([]*Term{i}, c.Implies(c.And(c.Le(c.Int(0), i), c.Lt(i, ln)), c.Exists([]*Term{k}, c.And(c.Le(c.Int(0), k), c.Lt(k, ln), same)))))
+	e.assumed["sort with a comparison function: afterwards the elements are ordered as the function says and each is one of the elements before the call (multiplicities not modelled): "+name] = true
+	return true
+}
+
+
+// appendStruct: append(s, x) for a slice of structs, one element. Elements of struct slices are objects
+// elem(base, i) whose fields live in the per-field heap arrays, so a reallocation is a copy in every field array of the
+// element type. Each array F becomes F' defined point-wise,
+//
+//	F'[r] = x.f                       if r is the field location of the new element
+//	      = F[location in the old backing array]  if r is a field location of one of the first len(s) new elements
+//	      = F[r]                      otherwise
+//
+// and that definition is instantiated at every index the query reads (instantiateLoopFrames).
+func (e *Exec) appendStruct(fr *Frame, st *State, ins ssa.Instruction, cc *ssa.CallCommon, args []Val, et types.Type) *Term {
+	c := e.c
+	s := args[0].T
+	base, off, ln, cp := e.tm.SliceBase(s), e.tm.SliceOff(s), e.tm.SliceLen(s), e.tm.SliceCap(s)
+	xs := args[1].T
+	xv := e.load(st, Val{T: e.elemRef(e.tm.SliceBase(xs), e.tm.SliceOff(xs))}, et).T
+	fits := c.Le(c.Add(ln, c.Int(1)), cp)
+	nb := c.Fresh("append.base", "Int")
+	e.assume(st, c.And(c.Gt(nb, st.allocTop), c.Gt(nb, c.Int(0))))
+	st.allocTop = nb
+	ncap := c.Fresh("append.cap", "Int")
+	e.assume(st, c.And(c.Ge(ncap, c.Add(ln, c.Int(1))), c.Le(ncap, c.Int(1<<40))))
+	newBase := c.Ite(fits, base, nb)
+	newOff := off // as for other slices: the copy keeps element offsets
+	newCap := c.Ite(fits, cp, ncap)
+	c.DeclareFun("sub", "(declare-fun sub (Int Int) Int)")
+	c.DeclareFun("sub.par", "(declare-fun sub.par (Int) Int)")
+	c.DeclareFun("sub.fld", "(declare-fun sub.fld (Int) Int)")
+	c.DeclareFun("elem.par", "(declare-fun elem.par (Int) Int)")
+	c.DeclareFun("elem.idx", "(declare-fun elem.idx (Int) Int)")
+	c.DeclareFun("elem.isElem", "(declare-fun elem.isElem (Int) Bool)")
+	pp := e.eng.fset.Position(ins.Pos())
+	var walk func(ty types.Type, path []int, v *Term)
+	walk = func(ty types.Type, path []int, v *Term) {
+		si := e.tm.Struct(ty)
+		for i, f := range si.fields {
+			fv := c.Sel(f.sel, f.sort, i, si.ctor, v)
+			if isStructT(f.typ) {
+				walk(f.typ, append(append([]int{}, path...), i), fv)
+				continue
+			}
+			var n, srt string
+			p := path
+			if memArrayT(f.typ) {
+				n, srt = e.memArr(f.typ.Underlying().(*types.Array).Elem())
+				p = append(append([]int{}, path...), i)
+			} else {
+				n, srt = e.fieldArr(ty, i)
+			}
+			srt = e.fixSort(srt)
+			pathOf := func(root *Term) *Term {
+				r := root
+				for _, k := range p {
+					r = e.sub(r, k)
+				}
+				return r
+			}
+			F := e.heapGet(st, n, srt)
+			F2 := c.Fresh(n+"@append", srt)
+			r := c.BoundVarNamed(fmt.Sprintf("ap.%d.%d.%s", pp.Line, pp.Column, n), "Int")
+			root := r
+			for range p {
+				root = c.App("sub.par", "Int", root)
+			}
+			isPath := c.True()
+			if len(p) > 0 {
+				isPath = c.Eq(r, pathOf(root))
+			}
+			idx := c.App("elem.idx", "Int", root)
+			inNew := c.And(isPath, c.App("elem.isElem", "Bool", root), c.Eq(c.App("elem.par", "Int", root), newBase), c.Le(newOff, idx), c.Lt(idx, c.Add(newOff, ln)))
+			src := pathOf(e.elemRef(base, c.Add(off, c.Sub(idx, newOff))))
+			appended := pathOf(e.elemRef(newBase, c.Add(newOff, ln)))
+			body := c.Eq(c.Select(F2, r), c.Ite(c.Eq(r, appended), fv, c.Ite(inNew, c.Select(F, src), c.Select(F, r))))
+			q := c.ForallPat([]*Term{r}, body, c.Select(F2, r))
+			e.loopFrames = append(e.loopFrames, &loopFrameRec{q: q, bv: r, body: body, newArr: F2})
+			if e.frameOn && !e.frameOff {
+				// in place, the append writes the location just past the old length
+				e.frameCheckCond(st, n, pathOf(e.elemRef(base, c.Add(off, ln))), fits)
+			}
+			saved := e.frameOff
+			e.frameOff = true
+			e.heapSet(st, n, F2)
+			e.frameOff = saved
+			e.assume(st, q)
+		}
+	}
+	walk(et, nil, xv)
+	e.allocCheck(fr, st, ins, c.Ite(fits, c.Int(0), ncap))
+	return e.tm.MkSlice(newBase, newOff, c.Add(ln, c.Int(1)), newCap)
 }
